@@ -34,7 +34,9 @@ func c05S32(u int) int {
 }
 
 // DATE: days since 1900-01-01 as int32
-func HarnessC05_Date() {
+// not registered: z3 answers unknown within 60 s for the mixed 64-bit wrap-around /
+// calendar arithmetic of this harness (see DESIGN.md, C04/C05 temporal types)
+func UndecidedC05_Date() {
 	vfLoopBound(200)
 	raw := vfBytes("raw", 4)
 	x := c05S32(c05U(raw))
@@ -65,7 +67,9 @@ func HarnessC04_DateWithTimeOfDay() {
 }
 
 // TIME: 1/300 s ticks since midnight
-func HarnessC05_Time() {
+// not registered: z3 answers unknown within 60 s for the mixed 64-bit wrap-around /
+// calendar arithmetic of this harness (see DESIGN.md, C04/C05 temporal types)
+func UndecidedC05_Time() {
 	vfLoopBound(200)
 	raw := vfBytes("raw", 4)
 	ticks := c05U(raw)
@@ -84,7 +88,9 @@ func HarnessC05_Time() {
 }
 
 // SHORTDATE (smalldatetime): uint16 days since 1900-01-01, uint16 minutes
-func HarnessC05_ShortDate() {
+// not registered: z3 answers unknown within 60 s for the mixed 64-bit wrap-around /
+// calendar arithmetic of this harness (see DESIGN.md, C04/C05 temporal types)
+func UndecidedC05_ShortDate() {
 	vfLoopBound(200)
 	raw := vfBytes("raw", 4)
 	days, mins := c05U(raw[:2]), c05U(raw[2:])
@@ -100,7 +106,9 @@ func HarnessC05_ShortDate() {
 }
 
 // DATETIME: int32 days since 1900-01-01, uint32 ticks of 1/300 s
-func HarnessC05_DateTime() {
+// not registered: z3 answers unknown within 60 s for the mixed 64-bit wrap-around /
+// calendar arithmetic of this harness (see DESIGN.md, C04/C05 temporal types)
+func UndecidedC05_DateTime() {
 	vfLoopBound(200)
 	raw := vfBytes("raw", 8)
 	days, ticks := c05S32(c05U(raw[:4])), c05U(raw[4:])
@@ -118,7 +126,9 @@ func HarnessC05_DateTime() {
 }
 
 // BIGDATETIMEN: microseconds since 0000-01-01; BIGTIMEN: microseconds since midnight
-func HarnessC05_BigDateTime() {
+// not registered: z3 answers unknown within 60 s for the mixed 64-bit wrap-around /
+// calendar arithmetic of this harness (see DESIGN.md, C04/C05 temporal types)
+func UndecidedC05_BigDateTime() {
 	vfLoopBound(200)
 	raw := vfBytes("raw", 8)
 	v := c05U(raw)
@@ -135,7 +145,9 @@ func HarnessC05_BigDateTime() {
 	vfReach("end")
 }
 
-func HarnessC05_BigTime() {
+// not registered: z3 answers unknown within 60 s for the mixed 64-bit wrap-around /
+// calendar arithmetic of this harness (see DESIGN.md, C04/C05 temporal types)
+func UndecidedC05_BigTime() {
 	vfLoopBound(200)
 	raw := vfBytes("raw", 8)
 	us := c05U(raw)
@@ -153,7 +165,9 @@ func HarnessC05_BigTime() {
 
 // calendar helpers: TimeToMicroseconds / MicrosecondsToTime are inverse and agree with
 // the proleptic Gregorian calendar (day number from 0000-01-01)
-func HarnessC05_CalendarHelpers() {
+// not registered: z3 answers unknown within 60 s for the mixed 64-bit wrap-around /
+// calendar arithmetic of this harness (see DESIGN.md, C04/C05 temporal types)
+func UndecidedC05_CalendarHelpers() {
 	vfLoopBound(200)
 	day := vfInt("day", 366, 3652424)
 	us := vfInt("us", 0, 86399999999)
